@@ -47,6 +47,8 @@ func runFamily(fam string, w *bufio.Writer, r *rng, id, size int, opt string) bo
 			genCall(w, r, id, cfgAcyclic, 8, "call")
 		case "exact":
 			emitCall(w, genExact(r, cfgGeneral), id, 5, "call", "fam=exact")
+		case "gens":
+			emitCall(w, genGens(r, cfgGeneral), id, 3, "call", "fam=gens")
 		case "malformed":
 			emitCall(w, genMalformed(r, cfgGeneral), id, 2, "call", "fam=malformed")
 		case "hopeless":
